@@ -87,7 +87,7 @@ example (pol : Policy) (log : List Report) :
   rw [sA_flags] at h1
   have hb : body = sA := body_pinned {} sA body sA false false _ (h1 {}) rfl
   subst hb
-  refine ⟨h2 {} false rfl rfl rfl rfl, h3, ?_⟩
+  refine ⟨h2 {} false rfl rfl rfl rfl (by decide +kernel), h3, ?_⟩
   have := h4 [.blank 32] [10] 1 3 .name pol log (by decide) (Or.inr (by intro b r h; cases h)) (by decide) (by decide) (by decide)
   simpa [renderWs, WsAtom.render] using this
 
@@ -99,7 +99,7 @@ example (pol : Policy) (log : List Report) : ∃ body : Str,
     ∃ L C, nextToken .cif2 ⟨[32] ++ ((a!"\n;" ++ body ++ a!"\n;") ++ [10]), 1, 3, .name⟩ pol log
       = .ok (⟨.tvalue, body, L, C⟩, ⟨[10], L, C, .tvalue⟩) log := by
   obtain ⟨body, _, h2, h3, h4⟩ := C18_text_field_reads_back_all sB true true LINE (by decide +kernel) sB_text
-  refine ⟨body, h2 {} false rfl rfl rfl rfl, h3, ?_⟩
+  refine ⟨body, h2 {} false rfl rfl rfl rfl (by decide +kernel), h3, ?_⟩
   have := h4 [.blank 32] [10] 1 3 .name pol log (by decide) (Or.inr (by intro b r h; cases h)) (by decide) (by decide) (by decide)
   simpa [renderWs, WsAtom.render] using this
 
@@ -131,7 +131,7 @@ example (pol : Policy) (log : List Report) : ∃ body : Str,
     ∃ L C, nextToken .cif2 ⟨(a!"\n;" ++ body ++ a!"\n;") ++ [], 7, 2048, .value⟩ pol log
       = .ok (⟨.tvalue, body, L, C⟩, ⟨[], L, C, .tvalue⟩) log := by
   obtain ⟨body, _, h2, h3, h4⟩ := C18_text_field_reads_back_all sP true true LINE (by decide +kernel) sP_text
-  refine ⟨body, h2 {} false rfl rfl rfl rfl, h3, ?_⟩
+  refine ⟨body, h2 {} false rfl rfl rfl rfl (by decide +kernel), h3, ?_⟩
   -- no whitespace atom at all in front, the previous token (a value) ends at column 2048, end of input behind
   have := h4 [] [] 7 2048 .value pol log (by intro x hx; cases hx) (Or.inr (by intro b r h; cases h)) (by decide) (by decide) (by decide)
   simpa [renderWs] using this
@@ -139,7 +139,7 @@ example (pol : Policy) (log : List Report) : ∃ body : Str,
 example : ∃ body : Str, writeChar {} sQ false true = .ok (a!"\n;" ++ body ++ a!"\n;", { lastColumn := 1 }) ∧
     decodeText true true body = sQ := by
   obtain ⟨body, _, h2, h3, _⟩ := C18_text_field_reads_back_all sQ true true LINE (by decide +kernel) sQ_text
-  exact ⟨body, h2 {} false rfl rfl rfl rfl, h3⟩
+  exact ⟨body, h2 {} false rfl rfl rfl rfl (by decide +kernel), h3⟩
 
 /-! ### 3. reserved start + `<LF>;` (fold AND prefix), trailing backslashes, a leading `;` — at the level of the PARSED VALUE -/
 
